@@ -20,6 +20,10 @@ use crate::{ensure, fail};
 pub enum Case {
     /// Back up the same untouched tree twice, with possibly different options.
     Twice { opts1: Opts, opts2: Opts, tree: Tree },
+    /// As `Twice`, but while the first backup runs a later file of the directory being read is
+    /// replaced by a directory (reading it fails). The second backup of the then unchanged
+    /// tree must still find every other file recorded and store nothing.
+    TwiceAfterReadError { opts1: Opts, opts2: Opts, tree: Tree, when: u16, victim: u16 },
     Hist(History),
     /// Interrupt a backup at every crash point, then resume with an unchanged source.
     Resume(Scenario),
@@ -31,6 +35,8 @@ fn strategy(tier: Tier) -> BoxedStrategy<Case> {
     prop_oneof![
         w_twice => (tree::opts_tree_strategy(TreeCfg::full()), tree::opts_strategy())
             .prop_map(|((opts1, tree), opts2)| Case::Twice { opts1, opts2, tree }),
+        10 => (tree::opts_tree_strategy(TreeCfg { max_children: 8, links: false, ..TreeCfg::plain() }), tree::opts_strategy(), any::<u16>(), any::<u16>())
+            .prop_map(|((opts1, tree), opts2, when, victim)| Case::TwiceAfterReadError { opts1, opts2, tree, when, victim }),
         w_hist => history_strategy(hist_cfg(tier)).prop_map(Case::Hist),
         w_resume => scen::scenario_strategy(false, false).prop_map(Case::Resume),
     ]
@@ -71,9 +77,31 @@ fn check_no_rewrite(log: &[Logged], what: &str) -> CaseResult {
 }
 
 fn run_twice(opts1: Opts, opts2: Opts, t: &Tree, cx: &mut Cx) -> CaseResult {
+    run_twice_with(opts1, opts2, t, None, cx)
+}
+
+/// `swap`: (path whose report triggers it, path of the file that becomes a directory then).
+fn run_twice_with(opts1: Opts, opts2: Opts, t: &Tree, swap: Option<(String, String)>, cx: &mut Cx) -> CaseResult {
     let w = World::new(&cx.scratch, t);
+    if let Some((trigger, victim)) = &swap {
+        let path = tree::fs_path(&w.src, victim);
+        let trigger = trigger.clone();
+        ops::set_on_change(Some(Box::new(move |apath: &str| {
+            if apath == trigger {
+                let _ = std::fs::remove_file(&path);
+                let _ = std::fs::create_dir(&path);
+            }
+        })));
+    }
     let b1 = ops::backup(&w.arch, &None, &w.src, opts1, &[]);
-    ensure!(!ops::backup_reported_error(&b1), "C14/backup-error", "{}", b1.describe());
+    ops::set_on_change(None);
+    if swap.is_none() {
+        ensure!(!ops::backup_reported_error(&b1), "C14/backup-error", "{}", b1.describe());
+    } else {
+        // the first backup may report the unreadable file; it must not fail as a whole
+        ensure!(b1.panic.is_none() && b1.result.is_ok(), "C14/backup-of-changing-tree-failed", "{}", b1.describe());
+        cx.label("first-backup-met-a-read-error");
+    }
     let ctl = crate::hooks::Ctl::new(&w.arch, Plan::None);
     let hook: ops::Hook = Some(ctl.clone() as std::sync::Arc<dyn conserve::transport::verif::Interceptor>);
     let b2 = ops::backup(&w.arch, &hook, &w.src, opts2, &[]);
@@ -106,8 +134,13 @@ fn run_twice(opts1: Opts, opts2: Opts, t: &Tree, cx: &mut Cx) -> CaseResult {
         stats.new_files
     );
     let ra = format::scan(&w.arch);
-    let a0 = addrs_by_path(&ra, 0);
-    let a1 = addrs_by_path(&ra, 1);
+    let mut a0 = addrs_by_path(&ra, 0);
+    let mut a1 = addrs_by_path(&ra, 1);
+    if let Some((_, victim)) = &swap {
+        // the path that changed kind during the first backup is not "unchanged"
+        a0.remove(victim);
+        a1.remove(victim);
+    }
     ensure!(
         a0 == a1,
         "C14/unchanged-tree-addresses-differ",
@@ -290,6 +323,21 @@ fn run_resume(sc: &Scenario, cx: &mut Cx) -> CaseResult {
 fn run(case: &Case, cx: &mut Cx) -> CaseResult {
     match case {
         Case::Twice { opts1, opts2, tree } => run_twice(*opts1, *opts2, tree, cx),
+        Case::TwiceAfterReadError { opts1, opts2, tree, when, victim } => {
+            let mut files: Vec<&String> = tree.0.iter().filter(|(_, n)| matches!(n.kind, tree::Kind::File { len, .. } if len > 0)).map(|(p, _)| p).collect();
+            files.sort_by(|a, b| format::ref_cmp(a, b));
+            if files.len() < 2 {
+                return run_twice(*opts1, *opts2, tree, cx);
+            }
+            let wi = (*when as usize * (files.len() - 1)) >> 16;
+            let trigger = files[wi].clone();
+            let later: Vec<&String> = files[wi + 1..].iter().copied().filter(|p| tree::parent_of(p) == tree::parent_of(&trigger)).collect();
+            if later.is_empty() {
+                return run_twice(*opts1, *opts2, tree, cx);
+            }
+            let v = later[(*victim as usize * later.len()) >> 16].clone();
+            run_twice_with(*opts1, *opts2, tree, Some((trigger, v)), cx)
+        }
         Case::Hist(h) => run_hist(h, cx),
         Case::Resume(sc) => run_resume(sc, cx),
     }
@@ -411,7 +459,7 @@ pub fn prop() -> Prop<Case> {
     Prop {
         id: "C14",
         level: "exploration",
-        rule: "three case kinds. Twice: (options1, options2, tree) backed up twice untouched: the logged storage trace of run 2 has no write under d/, written_blocks==0, independently decoded addresses per path identical; non-trivial = tree has a combined block and a multi-block file. Hist: history as C02 with every storage operation logged with the pre-state of its path: no write to a d/ path that exists with non-zero length; non-trivial = >=2 backups with deduplication. Resume: scenario (prefix<=3 ops, edits, options) x every crash point of the backup's trace (before each mutating op + torn variant for writes; quick tier thins to <=60 per scenario), then a resumed backup of the unchanged source: block paths successfully written by run 1 are not written by run 2, every entry the interrupted band recorded keeps its addresses in the resumed band, and every file unchanged (size, mtime) with respect to the stitched basis at the moment of the crash is recorded with the basis entry's addresses; non-trivial = crash point after >=1 block write (counted per (scenario, crash point), distinct by construction). Fixed scale probes per run: the twice-relation on files stored as single blocks of several MiB (two of them identical) and on a version whose single index hunk exceeds 32 MiB, and the resume relation at 20 crash points of a backup over a basis band of 200 two-entry hunks with one file added at the front, and the resume relation at 8 crash points when the interrupted band sits 12 000 ids above its basis",
+        rule: "four case kinds. Twice: (options1, options2, tree) backed up twice untouched: the logged storage trace of run 2 has no write under d/, written_blocks==0, independently decoded addresses per path identical; non-trivial = tree has a combined block and a multi-block file. TwiceAfterReadError (a tenth as many): the same relation when, during the first backup, a later file of the directory being read was replaced by a directory so that reading it failed. Hist: history as C02 with every storage operation logged with the pre-state of its path: no write to a d/ path that exists with non-zero length; non-trivial = >=2 backups with deduplication. Resume: scenario (prefix<=3 ops, edits, options) x every crash point of the backup's trace (before each mutating op + torn variant for writes; quick tier thins to <=60 per scenario), then a resumed backup of the unchanged source: block paths successfully written by run 1 are not written by run 2, every entry the interrupted band recorded keeps its addresses in the resumed band, and every file unchanged (size, mtime) with respect to the stitched basis at the moment of the crash is recorded with the basis entry's addresses; non-trivial = crash point after >=1 block write (counted per (scenario, crash point), distinct by construction). Fixed scale probes per run: the twice-relation on files stored as single blocks of several MiB (two of them identical) and on a version whose single index hunk exceeds 32 MiB, and the resume relation at 20 crash points of a backup over a basis band of 200 two-entry hunks with one file added at the front, and the resume relation at 8 crash points when the interrupted band sits 12 000 ids above its basis",
         assumptions: &[
             "zero-length leftovers of a killed write may be completed (the documented exception)",
             "crash granularity = one transport operation",
